@@ -4,6 +4,9 @@
     sample statistics are parameters (C11-C13 are about them). *)
 From Perf Require Import Base.Bytes Base.B64 Model.BenchTab Proofs.BenchTab.
 From Coq Require Import Sorting.Permutation.
+From Perf Require Model.Reader Model.Files Model.Units Model.FilterAst Model.FilterEval Model.Projection Model.Pipeline
+  Proofs.Reader Proofs.Exclusion Proofs.KeyGet Proofs.Lossless Proofs.Pipeline.
+From Perf Require Import Model.Extract.
 
 (** the sample of cell (table, row, col) is exactly the measurements projected
     there, each counted once, in input order: cells partition the measurements *)
@@ -89,3 +92,192 @@ Example C14_example :
   let ms := [mkMeas 0 0 0 0 b64_one; mkMeas 0 0 1 1 b64_zero; mkMeas 0 0 0 2 b64_zero] in
   lookup_vals (build ms) 0 0 0 = [b64_one; b64_zero] /\ lookup_res (build ms) 0 0 0 = [0; 2]%N.
 Proof. split; reflexivity. Qed.
+
+(** * The composed model: cmd/benchstat/main.go from flag strings and file texts
+    (Model/Pipeline.v; proofs in Proofs/Pipeline.v).  [benchstat_run fl files]
+    is the run of benchstat on the five flag strings [fl] and the inputs
+    [files] (command-line argument, text); library behaviour (unicode classes,
+    bytesconv.Atoi/ParseFloat, regexp) is universally quantified.
+    [run_facts fl files o assign] is the anatomy of a successful run [o]:
+    the flags compiled, the files read without I/O error, [o_kept o] the
+    results that were added (in file order), [assign] the Keys (table Keys per
+    value, row, column, residue) each of them received from the projection
+    stream, [o_tuples o] what Builder.Add received. *)
+Import Perf.Model.Pipeline.
+
+(** the run is total: it ends in tables or in a flag / file error, never in a
+    disagreement between the component models (EInternal) or out of fuel; and
+    a successful run has the anatomy the following theorems speak about *)
+Theorem C14_pipeline_total :
+  forall is_space is_lower is_upper atoi parse_float re_ok rematch fl files,
+  match benchstat_run is_space is_lower is_upper atoi parse_float re_ok rematch fl files with
+  | POk o => exists assign, Proofs.Pipeline.run_facts is_space is_lower is_upper atoi parse_float re_ok rematch fl files o assign
+  | PErr e => e <> EInternal /\ e <> EFuel
+  end.
+Proof. exact Proofs.Pipeline.run_anatomy. Qed.
+Print Assumptions C14_pipeline_total.
+
+(** pipeline_cell_exact: for every list of files and flags on which the
+    pipeline succeeds, the sample of cell (t, r, c) of [build (tuples)] is
+    exactly, in input order: for every result line of the files that has a
+    measurement passing the filter (the record carries the file configuration
+    in scope at its line), if its row and column Keys are r and c, its passing
+    measurements - the values AFTER Tidy - whose table Key (the projection of
+    the result with that measurement's tidied unit) is t.  Each once, nothing else. *)
+Theorem C14_pipeline_cell_exact :
+  forall is_space is_lower is_upper atoi parse_float re_ok rematch fl files o assign t r c,
+  Proofs.Pipeline.run_facts is_space is_lower is_upper atoi parse_float re_ok rematch fl files o assign ->
+  lookup_vals (build (o_tuples o)) t r c
+  = flat_map (Proofs.Pipeline.contrib t r c) (combine (o_kept o) assign).
+Proof. exact Proofs.Pipeline.cell_exact. Qed.
+Print Assumptions C14_pipeline_cell_exact.
+
+(** the kept results are exactly the result records with a passing measurement,
+    in file order, each cut down to its passing measurements (the filter step
+    of the code - 32-bit masks, short circuits, Apply - equals its boolean
+    specification on everything the reader can deliver) *)
+Theorem C14_pipeline_filter_exact :
+  forall is_space is_lower is_upper atoi parse_float re_ok rematch fl files,
+  benchstat_run is_space is_lower is_upper atoi parse_float re_ok rematch fl files
+  = benchstat_run_spec is_space is_lower is_upper atoi parse_float re_ok rematch fl files.
+Proof. exact Proofs.Pipeline.run_is_spec_run. Qed.
+Print Assumptions C14_pipeline_filter_exact.
+
+(** pipeline_filter_sound: every tuple is a measurement of a result line that
+    passes the filter; a line or measurement that fails it is in no cell *)
+Theorem C14_pipeline_filter_sound :
+  forall is_space is_lower is_upper atoi parse_float re_ok rematch fl files o assign m,
+  Proofs.Pipeline.run_facts is_space is_lower is_upper atoi parse_float re_ok rematch fl files o assign ->
+  In m (o_tuples o) ->
+  exists r i v, In (Reader.RRes r) (o_records o) /\ nth_error (Reader.r_vals r) i = Some v /\
+                meas_passes rematch (o_compiled o) r i = true /\ m_v m = Units.v_val v.
+Proof. exact Proofs.Pipeline.filter_sound. Qed.
+Print Assumptions C14_pipeline_filter_sound.
+
+(** ... and nothing that passes is lost *)
+Theorem C14_pipeline_filter_complete :
+  forall is_space is_lower is_upper atoi parse_float re_ok rematch fl files o assign r,
+  Proofs.Pipeline.run_facts is_space is_lower is_upper atoi parse_float re_ok rematch fl files o assign ->
+  In (Reader.RRes r) (o_records o) ->
+  (exists i, i < length (Reader.r_vals r) /\ meas_passes rematch (o_compiled o) r i = true) ->
+  In (kept_of r (spec_kept_vals rematch (o_compiled o) r)) (o_kept o).
+Proof. exact Proofs.Pipeline.filter_complete. Qed.
+Print Assumptions C14_pipeline_filter_complete.
+
+(** which measurements of a result stay: those of which [meas_passes] holds *)
+Theorem C14_pipeline_kept_measurement :
+  forall rematch c r v,
+  In v (spec_kept_vals rematch c r) <->
+  exists i, nth_error (Reader.r_vals r) i = Some v /\ meas_passes rematch c r i = true.
+Proof. exact Proofs.Pipeline.kept_measurement. Qed.
+Print Assumptions C14_pipeline_kept_measurement.
+
+(** the records the run works on are, record for record, what the format
+    prescribes for each file read on its own (configuration as a map, nothing
+    leaking between files, unit metadata carried along): C02 under the run;
+    every result has a measurement and pairwise distinct configuration keys *)
+Theorem C14_pipeline_reads_linespec :
+  forall is_space is_lower is_upper atoi parse_float files recs e st,
+  read_files is_space is_lower is_upper atoi parse_float files = (recs, e, st) ->
+  Forall Proofs.Pipeline.res_wf recs /\
+  exists recs2,
+    Files.files_spec_loop is_space is_lower is_upper atoi parse_float (file_system files)
+      (Files.files_inputs true (map fst files)) [] = (recs2, e, Reader.rs_units st) /\
+    Forall2 Proofs.Reader.rec_equiv recs recs2.
+Proof.
+  intros. split; [eapply Proofs.Pipeline.read_files_wf; eauto|eapply Proofs.Pipeline.read_files_refine_spec; eauto].
+Qed.
+Print Assumptions C14_pipeline_reads_linespec.
+
+(** the Key a kept result got for its row / column / residue, read in the final
+    projections: every field holds what its extractor yields on THAT result
+    (C05's extractors; the full name minus individually projected name keys;
+    file-configuration values in .config sub-fields); every file key no flag
+    names has a sub-field in each .config group; no group has a sub-field for
+    an individually named key *)
+Theorem C14_pipeline_key_meaning :
+  forall is_space is_lower is_upper atoi parse_float re_ok rematch fl files o assign i k a pi key,
+  Proofs.Pipeline.run_facts is_space is_lower is_upper atoi parse_float re_ok rematch fl files o assign ->
+  nth_error (o_kept o) i = Some k -> nth_error assign i = Some a ->
+  In (pi, key) [(pi_row, Proofs.Pipeline.a_row a); (pi_col, Proofs.Pipeline.a_col a); (pi_residue, Proofs.Pipeline.a_res a)] ->
+  let pa := Proofs.Exclusion.parser_after (Proofs.Pipeline.calls_of (o_compiled o)) in
+  exists pF, nth_error (Projection.w_projs (o_world o)) pi = Some pF /\ key < length (Projection.p_keys pF) /\
+    (forall idx f, nth_error (Projection.p_fields pF) idx = Some f ->
+       Projection.key_get pF key idx = Proofs.KeyGet.want (Projection.pp_full pa) (k_res k) f) /\
+    (forall g ord cf, In (Projection.PConfig g ord) (Projection.p_items pF) ->
+       In cf (Projection.r_cfg (k_res k)) -> c_file cf = true -> ~ In (c_key cf) (Projection.pp_cfg pa) ->
+       exists j, In j (Projection.group_subs pF g) /\ Projection.field_name pF j = c_key cf /\
+                 Projection.key_get pF key j = c_val cf) /\
+    (forall g j, In j (Projection.group_subs pF g) -> ~ In (Projection.field_name pF j) (Projection.pp_cfg pa)).
+Proof. exact Proofs.Pipeline.key_meaning. Qed.
+Print Assumptions C14_pipeline_key_meaning.
+
+(** two Keys of a projection of the run are equal iff they read the same in every field *)
+Theorem C14_pipeline_key_eq_iff_values :
+  forall is_space is_lower is_upper atoi parse_float re_ok rematch fl files o assign pi p k1 k2,
+  Proofs.Pipeline.run_facts is_space is_lower is_upper atoi parse_float re_ok rematch fl files o assign ->
+  nth_error (Projection.w_projs (o_world o)) pi = Some p ->
+  k1 < length (Projection.p_keys p) -> k2 < length (Projection.p_keys p) ->
+  (k1 = k2 <-> forall idx, idx < Projection.nfields p -> Projection.key_get p k1 idx = Projection.key_get p k2 idx).
+Proof. exact Proofs.Pipeline.key_eq_iff_values. Qed.
+Print Assumptions C14_pipeline_key_eq_iff_values.
+
+(** pipeline_ignore: a file-configuration key that a flag names individually -
+    the keys of -ignore in particular - has no sub-field in any .config group
+    of ANY projection of the run (table, row, column, residue): it never splits
+    tables, rows or columns unless that projection's own flag names it *)
+Theorem C14_pipeline_ignore :
+  forall is_space is_lower is_upper atoi parse_float re_ok rematch fl files o assign fields p pi pF g j,
+  Proofs.Pipeline.run_facts is_space is_lower is_upper atoi parse_float re_ok rematch fl files o assign ->
+  In fields (cp_all (o_compiled o)) -> In p fields -> Proofs.Pipeline.plain_flag_key (FilterAst.pf_key p) ->
+  nth_error (Projection.w_projs (o_world o)) pi = Some pF ->
+  In j (Projection.group_subs pF g) -> Projection.field_name pF j <> FilterAst.pf_key p.
+Proof. exact Proofs.Pipeline.ignore_never_splits. Qed.
+Print Assumptions C14_pipeline_ignore.
+
+(** a field list the text parser and its checks accept (C07) is one
+    makeProjection accepts (C08): the two models of Parse agree on acceptance *)
+Theorem C14_pipeline_parse_models_agree : forall l,
+  ProjParse.check_fields l = None -> forallb Proofs.Exclusion.spec_ok (map to_spec l) = true.
+Proof. exact Proofs.Pipeline.check_fields_spec_ok. Qed.
+Print Assumptions C14_pipeline_parse_models_agree.
+
+(** PARTIAL (C15 at the level of the run): runs whose tuple lists are
+    permutations of each other have the same multiset in every cell.  Missing:
+    that permuting result LINES of the text within a configuration scope
+    permutes the tuples up to a renaming of Keys (first-seen interning and
+    first-seen .config sub-field creation rename them); see Proofs/Pipeline.v. *)
+Theorem C14_pipeline_line_perm_partial :
+  forall is_space is_lower is_upper atoi parse_float re_ok rematch fl files fl' files' o o' assign assign' t r c,
+  Proofs.Pipeline.run_facts is_space is_lower is_upper atoi parse_float re_ok rematch fl files o assign ->
+  Proofs.Pipeline.run_facts is_space is_lower is_upper atoi parse_float re_ok rematch fl' files' o' assign' ->
+  Permutation (o_tuples o) (o_tuples o') ->
+  Permutation (lookup_vals (build (o_tuples o)) t r c) (lookup_vals (build (o_tuples o')) t r c).
+Proof. exact Proofs.Pipeline.line_perm_partial. Qed.
+Print Assumptions C14_pipeline_line_perm_partial.
+
+(** non-vacuity: a concrete run from text.  Two files (one labelled), file
+    configuration, ns/op needing Tidy, a /key=value name with a gomaxprocs
+    suffix, a malformed line; -filter keeps only the sec/op measurements. *)
+Definition ex_is_space (r : N) : bool := (r =? 32)%N || (r =? 9)%N.
+Definition ex_is_lower (r : N) : bool := (97 <=? r)%N && (r <=? 122)%N.
+Definition ex_is_upper (r : N) : bool := (65 <=? r)%N && (r <=? 90)%N.
+Definition ex_atoi (s : bytes) : option Z := if beq s (bs "10") then Some 10%Z else None.
+Definition ex_pf (s : bytes) : option b64 := None.
+Definition ex_text : bytes :=
+  bs "goos: linux" ++ [x0a] ++ bs "BenchmarkFib/n=1-4 10 2 ns/op 3 B/op" ++ [x0a]
+  ++ bs "BenchmarkFib/n=1-4 10 4 ns/op" ++ [x0a] ++ bs "BenchmarkFib 10 x" ++ [x0a].
+Definition ex_flags : flags := mkFlags (bs ".unit:sec/op") (bs ".config") (bs ".fullname") (bs ".file") [].
+Definition ex_run := benchstat_run ex_is_space ex_is_lower ex_is_upper ex_atoi ex_pf (fun _ => true) (fun _ _ => false)
+                       ex_flags [(bs "a.txt", ex_text); (bs "new=b.txt", ex_text)].
+Example C14_pipeline_example :
+  match ex_run with
+  | POk o =>
+      length (o_kept o) = 4 /\ length (o_tuples o) = 4 /\
+      syntax_errors (o_records o) = [(bs "a.txt", 4%Z); (bs "b.txt", 4%Z)] /\
+      map (fun m => (m_t m, m_r m, m_c m)) (o_tuples o) = [(0, 0, 0); (0, 0, 0); (0, 0, 1); (0, 0, 1)]%N /\
+      key_named (proj_of (o_world o) pi_col) 1 = [(bs ".file", bs "new")] /\
+      table_unit (proj_of (o_world o) pi_table) 0 = bs "sec/op"
+  | PErr _ => False
+  end.
+Proof. vm_compute. repeat split. Qed.
